@@ -23,6 +23,18 @@ def k_const(t):
     return None
 
 
+EPOCH_REPR = "datetime.datetime(1970, 1, 1, 0, 0, tzinfo=datetime.timezone.utc)"
+
+
+def epoch_issue(c):
+    """The constant a point in time is measured from must be 1970-01-01T00:00:00 UTC, as an aware datetime."""
+    if c is None:
+        return []  # not a plain constant (e.g. the local-time form below, which carries its own issue)
+    if isinstance(c, str) and c.replace(" ", "") == EPOCH_REPR.replace(" ", ""):
+        return []
+    return [f"T-epoch: time is measured from {c}, not from the aware UTC epoch 1970-01-01T00:00:00+00:00"]
+
+
 class Q:
     """Abstract time quantity."""
 
@@ -75,6 +87,10 @@ def analyse(t, hole: Q) -> Q | None:
         merged.trunc = "truncate" if "truncate" in truncs else first.trunc
         merged.ops = [o for q in qs for o in q.ops]
         return merged
+    if h == "localtime":
+        return Q("const", ops=["naive datetime read in the local time zone"],
+                 issues=[f"T-epoch: {t[1]}() of the naive {show(t[2]) if len(t) > 2 else 'datetime'} depends on the time zone of the process "
+                         f"that imports kio: under TZ=America/New_York every value is off by five hours"])
     if h in ("div", "mul", "floordiv", "add", "sub", "mod") and len(t) == 3:
         a, b = analyse(t[1], hole), analyse(t[2], hole)
         ca, cb = k_const(t[1]), k_const(t[2])
@@ -102,9 +118,13 @@ def analyse(t, hole: Q) -> Q | None:
                 return a.then("// on a float", carrier="float", exact=False, trunc="floor")
         if h in ("add", "sub"):
             if a.carrier == "const" and b.carrier == "timedelta":
-                return b.then("epoch + timedelta", carrier="datetime", gran=b.gran)
+                r = b.then("epoch + timedelta", carrier="datetime", gran=b.gran)
+                r.issues = list(r.issues) + list(a.issues) + epoch_issue(ca)
+                return r
             if a.carrier == "datetime" and b.carrier in ("const", "datetime"):
-                return a.then("datetime - epoch", carrier="timedelta")
+                r = a.then("datetime - epoch", carrier="timedelta")
+                r.issues = list(r.issues) + list(b.issues) + (epoch_issue(cb) if b.carrier == "const" else [])
+                return r
             if a.carrier == "const":
                 return b.then(f"{h} const")
             if b.carrier == "const":
@@ -246,6 +266,8 @@ def read_side(conv, wire_bits: int, kind: str):
         out.append(("T-float64", f"64-bit millisecond duration passes through a float on decode: {' -> '.join(q.ops)}",
                     next(o for o in q.ops if "/" in o or "float" in o)))
     for iss in q.issues:
+        if iss.startswith("T-epoch"):
+            out.append(("T-epoch", iss[9:], "epoch"))
         if iss.startswith("T-trunc"):
             out.append(("T-trunc", f"{iss[9:]}: {' -> '.join(q.ops)}; beyond 2**33 s a double is coarser than 1 us, so "
                                    f"8589934592001 ms lands below the millisecond boundary and decodes as ...000", "replace("))
@@ -267,6 +289,9 @@ def write_side(conv, wire_bits: int, kind: str):
         out.append(("T-trunc", f"an inexact float is truncated to an integer: {' -> '.join(q.ops)}; "
                                f"1.001 s * 1000 = 1000.9999999999999 -> 1000",
                     next(o for o in q.ops if o.startswith(("int", "math."))) ))
+    for iss in q.issues:
+        if iss.startswith("T-epoch"):
+            out.append(("T-epoch", iss[9:], "epoch"))
     if q.carrier != "int":
         out.append(("T-int", f"conversion does not end in an integer: {q.show()}", q.ops[-1]))
     elif q.unit not in ("ms", None):
